@@ -8,10 +8,12 @@ package props
 // serverId parameter it sees is the hash the server computed from what it decrypted.
 
 import (
+	"context"
 	"crypto/rand"
 	"crypto/rsa"
 	"crypto/sha1"
 	"crypto/x509"
+	"encoding/json"
 	"fmt"
 	"io"
 	"net/http"
@@ -20,6 +22,7 @@ import (
 	"testing"
 	"time"
 
+	"github.com/Tnze/go-mc/bot"
 	"github.com/Tnze/go-mc/data/packetid"
 	mcnet "github.com/Tnze/go-mc/net"
 	pk "github.com/Tnze/go-mc/net/packet"
@@ -32,11 +35,27 @@ import (
 )
 
 type c18Recorder struct {
-	mu   sync.Mutex
-	seen map[string]string // username -> serverId
+	mu    sync.Mutex
+	seen  map[string]string // hasJoined lookups: username -> serverId
+	joins map[string]string // join requests: profile name -> serverId
 }
 
 func (r *c18Recorder) RoundTrip(req *http.Request) (*http.Response, error) {
+	if req.Method == http.MethodPost {
+		var body struct {
+			SelectedProfile struct {
+				Name string `json:"name"`
+			} `json:"selectedProfile"`
+			ServerID string `json:"serverId"`
+		}
+		raw, _ := io.ReadAll(req.Body)
+		_ = json.Unmarshal(raw, &body)
+		r.mu.Lock()
+		r.joins[body.SelectedProfile.Name] = body.ServerID
+		r.mu.Unlock()
+		return &http.Response{StatusCode: http.StatusNoContent, Status: "204 No Content", Proto: "HTTP/1.1", ProtoMajor: 1, ProtoMinor: 1,
+			Header: http.Header{}, Body: io.NopCloser(strings.NewReader("")), Request: req}, nil
+	}
 	q := req.URL.Query()
 	r.mu.Lock()
 	r.seen[q.Get("username")] = q.Get("serverId")
@@ -48,7 +67,7 @@ func (r *c18Recorder) RoundTrip(req *http.Request) (*http.Response, error) {
 
 var (
 	c18RecOnce sync.Once
-	c18Rec     = &c18Recorder{seen: map[string]string{}}
+	c18Rec     = &c18Recorder{seen: map[string]string{}, joins: map[string]string{}}
 )
 
 type C18Hand struct {
@@ -145,3 +164,120 @@ var c18Hand = pbt.Register(pbt.Prop[C18Hand]{
 })
 
 func TestC18Handshake(t *testing.T) { pbt.Run(t, c18Hand) }
+
+// ---- the session hash the CLIENT computes in a real login --------------------------------------------
+//
+// bot.Client joins a harness-made server (in-memory connection, custom dialer) that answers the login start
+// with an encryption request carrying a generated server id. The bot's "join" request to the session server
+// goes through the same recording transport: its serverId field is the hash the client computed.
+
+type c18MemDialer struct{ end *iox.Duplex }
+
+func (d c18MemDialer) DialMCContext(ctx context.Context, addr string) (*mcnet.Conn, error) {
+	return mcnet.WrapConn(d.end), nil
+}
+
+type C18ClientHand struct {
+	ServerID string `json:"server_id"`
+	Seed     uint64 `json:"seed"`
+	BigKey   bool   `json:"big_key"`
+}
+
+func c18CheckClientHand(c C18ClientHand) *pbt.Violation {
+	c18RecOnce.Do(func() { http.DefaultTransport = c18Rec })
+	serverKey := attacker2048
+	if c.BigKey {
+		serverKey = attacker4096
+	}
+	pubDER, _ := x509.MarshalPKIXPublicKey(&serverKey.PublicKey)
+	name := fmt.Sprintf("c%x", c.Seed)
+	a, b := iox.NewDuplex()
+	sc := mcnet.WrapConn(a)
+	type sres struct {
+		secret []byte
+		err    error
+	}
+	sdone := make(chan sres, 1)
+	go func() {
+		var r sres
+		defer func() { a.Close(); sdone <- r }()
+		var p pk.Packet
+		for i := 0; i < 2; i++ { // handshake, login start
+			if r.err = sc.ReadPacket(&p); r.err != nil {
+				return
+			}
+		}
+		token := []byte{1, 2, 3, 4}
+		if r.err = sc.WritePacket(pk.Marshal(packetid.ClientboundLoginHello, pk.String(c.ServerID), pk.ByteArray(pubDER), pk.ByteArray(token))); r.err != nil {
+			return
+		}
+		if r.err = sc.ReadPacket(&p); r.err != nil {
+			return
+		}
+		var encSecret, encToken pk.ByteArray
+		if r.err = p.Scan(&encSecret, &encToken); r.err != nil {
+			return
+		}
+		r.secret, r.err = rsa.DecryptPKCS1v15(rand.Reader, serverKey, encSecret)
+	}()
+	cl := bot.NewClient()
+	cl.Auth = bot.Auth{Name: name, UUID: "069a79f444e94726a5befca90e38aaf5", AsTk: "token"}
+	jdone := make(chan struct{})
+	go func() {
+		defer close(jdone)
+		_, _ = pbt.Try(func() {
+			_ = cl.JoinServerWithOptions("harness.invalid:25565", bot.JoinOptions{MCDialer: c18MemDialer{end: b}})
+		})
+	}()
+	var sr sres
+	select {
+	case sr = <-sdone:
+	case <-time.After(30 * time.Second):
+		a.Close()
+		b.Close()
+		return pbt.V("c18.clienthand.stalled", "the client side computes the session hash", "the bot did not answer the encryption request within 30 s")
+	}
+	select {
+	case <-jdone:
+	case <-time.After(30 * time.Second):
+		b.Close()
+	}
+	if sr.err != nil {
+		return pbt.V("harness:c18clienthand", "harness", "fake server: %v", sr.err)
+	}
+	c18Rec.mu.Lock()
+	got, ok := c18Rec.joins[name]
+	delete(c18Rec.joins, name)
+	c18Rec.mu.Unlock()
+	if !ok {
+		return pbt.V("harness:c18clienthand-no-join", "harness", "the bot answered the encryption request without a join request through http.DefaultTransport")
+	}
+	h := sha1.New()
+	h.Write([]byte(c.ServerID))
+	h.Write(sr.secret)
+	h.Write(pubDER)
+	if want := java.BigIntHex(h.Sum(nil)); got != want {
+		return pbt.V("c18.clienthand.digest", "the session hash computed by the client side equals the server's and Java's rendering",
+			"server id %q: the bot sent serverId=%q to the session server; sha1(serverID+secret+publicKey) as Java renders it is %q", c.ServerID, got, want)
+	}
+	return nil
+}
+
+var c18ClientHand = pbt.Register(pbt.Prop[C18ClientHand]{
+	Name: "C18ClientHandshake",
+	Gen: func(t *rapid.T) C18ClientHand {
+		return C18ClientHand{ServerID: rapid.SampledFrom([]string{"", "", "a", "server-1", "0123456789abcdef0123", "é世", " "}).Draw(t, "serverid"),
+			Seed: rapid.Uint64().Draw(t, "seed"), BigKey: rapid.IntRange(0, 7).Draw(t, "bigkey") == 3}
+	},
+	Check: c18CheckClientHand,
+	Classify: func(c C18ClientHand) (bool, []string, []byte) {
+		l := "client_handshake_empty_server_id"
+		if c.ServerID != "" {
+			l = "client_handshake_nonempty_server_id"
+		}
+		return true, []string{l}, nil
+	},
+	Quick: 1200, Thorough: 20000,
+})
+
+func TestC18ClientHandshake(t *testing.T) { pbt.Run(t, c18ClientHand) }
